@@ -47,3 +47,36 @@ template <typename V> inline std::string emit(const V& v) {
     }
 }
 } // namespace c08
+
+namespace c08 {
+using proto::Args;
+// call f with the axis argument in the kind the request asks for: None / run-time int (`ax=int`) / std::vector<int>
+template <typename F> inline std::string with_axis(const Args& a, F f, bool allow_int = true) {
+    if (proto::is_none(a, "axis")) return f(nmtools::None);
+    auto ax = proto::intsi(a, "axis");
+    std::string axk = proto::has(a, "ax") ? proto::get(a, "ax") : "vec";
+    if (axk == "int") {
+        if (!allow_int || ax.size() != 1) throw proto::bad_args("ax");
+        int k = ax[0]; return f(k);
+    }
+    return f(ax);
+}
+// call f with initial = None or the integer of the request converted to T
+template <typename T, typename F> inline std::string with_init(const Args& a, F f) {
+    if (!proto::has(a, "init") || proto::is_none(a, "init")) return f(nmtools::None);
+    return f((T)proto::integer(a, "init"));
+}
+template <typename array_t> inline array_t make_array(const Args& a) {
+    auto s = proto::nats(a, "shape");
+    array_t arr; arr.resize(s);
+    size_t n = nmtools::size(arr);
+    using T = nmtools::meta::get_element_type_t<array_t>;
+    if (proto::has(a, "data")) {
+        auto toks = proto::split(proto::get(a, "data"), ',');
+        if (toks.size() != n) throw proto::bad_args("data");
+        for (size_t k = 0; k < n; k++) arr.data()[k] = (T)std::stod(toks[k]);
+    } else for (size_t k = 0; k < n; k++) arr.data()[k] = (T)(k + 1);
+    return arr;
+}
+inline bool keepdims_of(const Args& a) { return proto::has(a, "keepdims") && proto::get(a, "keepdims") == "1"; }
+} // namespace c08
